@@ -11,7 +11,8 @@ tname=$(basename "$demo" .rs)
 log=/tmp/confirm-$name.log; : > $log
 # state: patch applied (as left by the agent)?  normalise: reverse if applied, then apply.
 git apply -R --check seeded/patch.diff 2>/dev/null && git apply -R seeded/patch.diff
-git status --short -- src | grep -q . && { echo "src dirty without patch" | tee -a $log; }
+# anything still differing under src is not part of the delivered patch (e.g. a hunk another agent's shared `git stash` dropped here): discard it
+git status --short -- src | grep -q . && { echo "src dirty without patch: restoring pristine src" | tee -a $log; git checkout -- src; git clean -fdq -- src; }
 echo "== without patch: demo" >> $log
 timeout 1500 cargo test --offline --test $tname >> $log 2>&1; demo_clean=$?
 git apply seeded/patch.diff || { echo "patch does not apply"; exit 2; }
